@@ -87,6 +87,7 @@ def run_zinoma(d, args, trace, timeout=20, actions=(), env=None, binary=None):
                          start_new_session=True, cwd=d)
     pending = list(actions)
     sig_at = None
+    sig_line = 0
     timed_out = False
 
     def trace_lines():
@@ -105,13 +106,26 @@ def run_zinoma(d, args, trace, timeout=20, actions=(), env=None, binary=None):
             break
         for a in list(pending):
             when, what = a
-            due = (now >= when) if not isinstance(when, tuple) else (trace_lines() >= when[1])
+            if not isinstance(when, tuple):
+                due = now >= when
+            elif when[0] == "event":
+                due = trace_lines() >= when[1]
+            else:       # ("grep", text, delay): delay seconds after text first appears in the trace
+                try:
+                    found = when[1] in open(trace).read()
+                except OSError:
+                    found = False
+                if found and len(when) > 2 and when[2] > 0:
+                    pending[pending.index(a)] = (now + when[2], what)
+                    continue
+                due = found
             if due:
                 pending.remove(a)
                 if callable(what):
                     what(d)
                 else:
                     sig_at = time.time()
+                    sig_line = trace_lines()
                     try:
                         os.kill(p.pid, {"INT": signal.SIGINT, "TERM": signal.SIGTERM, "KILL": signal.SIGKILL}[what])
                     except ProcessLookupError:
@@ -141,7 +155,8 @@ def run_zinoma(d, args, trace, timeout=20, actions=(), env=None, binary=None):
             except ProcessLookupError:
                 pass
     return {"status": p.returncode, "out": out.decode(errors="replace"), "err": err.decode(errors="replace"),
-            "wall": time.time() - t0, "timed_out": timed_out, "leftovers": left2, "latency": latency}
+            "wall": time.time() - t0, "timed_out": timed_out, "leftovers": left2, "latency": latency,
+            "signalled": sig_at is not None, "sig_line": sig_line}
 
 
 def append_trace(trace, rec, first=False):
@@ -168,8 +183,14 @@ def engine_scenarios(tier, seed):
         sc.append({"name": name, "cfg": c, "bodies": bodies or {}, "actions": list(actions),
                    "args": args or ["t%d" % r for r in c["roots"]], "expect": expect or {}, "timeout": timeout})
 
+    def service_behind(f, t):
+        return f["kind"][t - 1] == "s" or (f["kind"][t - 1] == "a" and any(service_behind(f, d) for d in f["deps"][t - 1]))
+
     for f in fams:
-        add("plain_" + f["family"], f, {i: rng.choice(["ok", "nap"]) for i in range(1, f["n"] + 1)})
+        keep = any(service_behind(f, r) for r in f["roots"])
+        add("plain_" + f["family"], f, {i: rng.choice(["ok", "nap"]) for i in range(1, f["n"] + 1)},
+            actions=[(("grep", "root_wait_signal", 0.3), rng.choice(["INT", "TERM"]))] if keep else [],
+            expect={"signal": True} if keep else {})
     # failures of every flavour at every non-aggregate position of a few graphs
     for f in [x for x in fams if x["family"] in ("diamond_builds", "build_over_svc", "two_roots", "svc_chain", "agg_over_svc")]:
         for i in range(1, f["n"] + 1):
@@ -209,13 +230,10 @@ def run_engine_scenario(s):
         lines = [l for l in open(trace).read().splitlines() if l.strip()]
     sig = any(l.find('"ev":"root_loop_exit"') >= 0 and l.find('"signalled":true') >= 0 for l in lines) or bool(s["expect"].get("signal"))
     raw = [json.dumps({"ev": "cfg", "t": s["cfg"]["id"], "cfg": s["cfg"]})]
-    sent_signal = r["latency"] is not None
     for l in lines:
         raw.append(l)
-        if sent_signal and '"ev":"root_idle"' in l and False:
-            pass
-    if sent_signal:
-        raw.insert(1, json.dumps({"ev": "h_signal", "t": ""}))
+    if r["signalled"]:
+        raw.insert(1 + min(r["sig_line"], len(lines)), json.dumps({"ev": "h_signal", "t": ""}))
     if r["timed_out"]:
         raw.append(json.dumps({"ev": "h_stall", "t": ""}))
     else:
